@@ -150,3 +150,11 @@ def run(chk, tier):
             except (Anchor, Unsupported, SymbolicLoop, Diverged) as e:
                 chk.ob("R1", "%s|%s" % (ident, fn.__name__), False, "not established: %s" % e)
     chk.floor("R0", "fragments compared", n, 6)
+    # R6: nothing else on the public surface writes mem / a / b / c or the buffer
+    from .mutators import check_block_mutators
+    for wrapper, core in (("IsaacRng", "IsaacCore"), ("Isaac64Rng", "Isaac64Core")):
+        try:
+            gk = crate.method(Gen(crate, core).path, "rand_core::block::BlockRngCore", "generate")
+            check_block_mutators(chk, crate, [wrapper, core], "R6", [crate.body(gk)["def"]])
+        except Anchor as e:
+            chk.ob("R6", "%s|mutators" % wrapper, False, "not established: %s" % e)
